@@ -547,6 +547,38 @@ def _eval_str_guard(expr, env):
                 return left != right
         except TypeError:
             return _UNKNOWN
+    # pure path algebra of the standard library (no filesystem access)
+    if isinstance(expr, ast.Call) and isinstance(expr.func, ast.Name) and \
+            expr.func.id in ('PurePosixPath', 'PurePath', 'Path',
+                             'PosixPath') and len(expr.args) == 1:
+        from pathlib import PurePosixPath
+        arg = _eval_str_guard(expr.args[0], env)
+        if arg is _UNKNOWN or not isinstance(arg, str) or '\0' in arg:
+            return _UNKNOWN
+        return PurePosixPath(arg)
+    if isinstance(expr, ast.Attribute) and expr.attr in (
+            'name', 'parts', 'stem', 'suffix', 'parent', 'anchor'):
+        from pathlib import PurePosixPath
+        base = _eval_str_guard(expr.value, env)
+        if isinstance(base, PurePosixPath):
+            val = getattr(base, expr.attr)
+            return val
+        return _UNKNOWN
+    if isinstance(expr, ast.Call) and isinstance(expr.func, ast.Name) and \
+            expr.func.id in ('str', 'len') and len(expr.args) == 1:
+        arg = _eval_str_guard(expr.args[0], env)
+        if arg is _UNKNOWN:
+            return _UNKNOWN
+        return str(arg) if expr.func.id == 'str' else len(arg)
+    if isinstance(expr, ast.Call) and isinstance(expr.func, ast.Attribute) \
+            and txt(expr.func.value) in ('os.path', 'posixpath') and \
+            expr.func.attr in ('basename', 'dirname', 'normpath', 'split',
+                               'isabs') and len(expr.args) == 1:
+        import posixpath
+        arg = _eval_str_guard(expr.args[0], env)
+        if arg is _UNKNOWN or not isinstance(arg, str):
+            return _UNKNOWN
+        return getattr(posixpath, expr.func.attr)(arg)
     if isinstance(expr, ast.Call) and isinstance(expr.func, ast.Attribute) \
             and expr.func.attr in ('startswith', 'endswith', 'isidentifier',
                                    'isalnum', 'strip', 'count', 'find'):
